@@ -129,21 +129,26 @@ type WorkerOut struct {
 //
 //	worker -prop C25 -tier quick -seed 1 -first 0 -stride 16 -count 1000 -deadline 60s -out f.json
 //	worker -prop C25 -replay file.json
+var (
+	prop     = flag.String("prop", "", "property id")
+	tier     = flag.String("tier", "quick", "quick|thorough")
+	seed     = flag.Uint64("seed", 1, "VERIF_SEED")
+	first    = flag.Uint64("first", 0, "first run index")
+	stride   = flag.Uint64("stride", 1, "run index stride")
+	count    = flag.Int("count", 100, "max runs")
+	deadline = flag.Duration("deadline", time.Minute, "wall clock budget")
+	out      = flag.String("out", "", "result file")
+	replay   = flag.String("replay", "", "replay file")
+	replays  = flag.String("replaydir", "/verif/replays", "where to write replay files")
+	known    = flag.String("known", "/verif/known_findings.json", "known findings file")
+	digests  = flag.Bool("digests", false, "print one line per run with its digest (determinism self-test)")
+	maxViol  = flag.Int("maxviol", 3, "stop after this many distinct unknown violations")
+)
+
 func WorkerMain(engines map[string]func() Engine) {
-	prop := flag.String("prop", "", "property id")
-	tier := flag.String("tier", "quick", "quick|thorough")
-	seed := flag.Uint64("seed", 1, "VERIF_SEED")
-	first := flag.Uint64("first", 0, "first run index")
-	stride := flag.Uint64("stride", 1, "run index stride")
-	count := flag.Int("count", 100, "max runs")
-	deadline := flag.Duration("deadline", time.Minute, "wall clock budget")
-	out := flag.String("out", "", "result file")
-	replay := flag.String("replay", "", "replay file")
-	replays := flag.String("replaydir", "/verif/replays", "where to write replay files")
-	known := flag.String("known", "/verif/known_findings.json", "known findings file")
-	digests := flag.Bool("digests", false, "print one line per run with its digest (determinism self-test)")
-	maxViol := flag.Int("maxviol", 3, "stop after this many distinct unknown violations")
-	flag.Parse()
+	if !flag.Parsed() {
+		flag.Parse()
+	}
 
 	mk, ok := engines[*prop]
 	if !ok {
